@@ -188,11 +188,13 @@ impl Iterator for PkgDB {
                         }
                         match dir.file_name().to_str() {
                             Some(p) => {
-                                let v: Vec<&str> = p.rsplitn(2, '-').collect();
+                                /* PKGBASE and PKGVERSION split at the last '-'. */
+                                let (base, version) =
+                                    p.rsplit_once('-').unwrap_or((p, ""));
                                 package.path = dir.path();
                                 package.pkgname = p.to_string();
-                                package.pkgbase = v[0].to_string();
-                                package.pkgversion = v[1].to_string();
+                                package.pkgbase = base.to_string();
+                                package.pkgversion = version.to_string();
                                 return Some(Ok(package));
                             }
                             _ => {
